@@ -71,7 +71,8 @@ def opETD (args obs : List String) : Outcome :=
       let want := if p.length == 8 then
           s!"ok {beVal (p.take 4) + beVal (p.drop 4) / 1000000000} {beVal (p.drop 4) % 1000000000}" else "err"
       { corr := if ms == gs then .ok else .bad s!"model=[{ms}] go=[{gs}]",
-        prop := if !lenOk then .bad "C19 length rule" else if !reenc then .bad "C19 re-encode"
+        prop := if gs.startsWith "panic" || gs.startsWith "hang" then .bad s!"C10 EventTime decoding: {gs} ; C19 EventTime decoding: {gs}"
+                else if !lenOk then .bad "C19 length rule" else if !reenc then .bad "C19 re-encode"
                 else if gs != want then .bad s!"C19 decoded instant [{gs}] is not the payload's [{want}]" else .ok,
         branch := s!"etd.{p.length == 8}" }
     | none => { corr := .bad "bad-line" }
